@@ -23,8 +23,10 @@ type Env struct {
 	paramsEntry bool
 	pkg         string
 	noLocals    bool
-	qwf         *[]Term // well-formedness facts of heap reads that mention bound variables
-	live        *State  // state that receives facts discovered during evaluation (defaults to st)
+	qwf         *[]Term           // well-formedness facts of heap reads that mention bound variables
+	live        *State            // state that receives facts discovered during evaluation (defaults to st)
+	funs        map[string]string // contract-local function symbols (freshfun)
+	funSorts    map[string]string
 }
 
 func (e *Env) liveState() *State {
@@ -146,7 +148,11 @@ func (x *Exec) lookupIdent(env *Env, c *Clause, name string) (SymVal, types.Type
 		return nilMarker{}, nil
 	}
 	if g, ok := env.st.ghost[name]; ok {
-		return g, nil
+		return g, x.ghostTypes[name]
+	}
+	if gs, ok := x.CS.GhostHeaps[name]; ok {
+		x.regHeap("G!"+name, gs)
+		return x.heap(env.st, "G!"+name), nil
 	}
 	if name == "idx" || name == "rangelen" {
 		// range index of the loop whose head is the current block
@@ -697,6 +703,24 @@ func (x *Exec) evalCall(env *Env, c *Clause, e *Expr) (SymVal, types.Type) {
 			return SlCap(tv), intT
 		}
 		return Select(x.heap(env.st, kChCap), tv), intT
+	case "mhas", "mval":
+		need(1)
+		mv, mt := x.eval(env, c, e.Args[0])
+		m := x.asTerm(env, c, mv, mt, "")
+		u, ok := types.Unalias(mt).Underlying().(*types.Map)
+		if !ok {
+			x.specFail(c, "%s of non-map", e.Op)
+		}
+		hk, vk, _ := x.mapHeapKeys(u)
+		if e.Op == "mhas" {
+			return Select(x.heap(env.st, hk), m), nil
+		}
+		return Select(x.heap(env.st, vk), m), nil
+	case "elems":
+		// elems("T"): the element heap of slices of T (base -> index -> value)
+		need(1)
+		t := x.resolveType(env, c, e.Args[0].Lit)
+		return x.heap(env.st, x.elemHeapKey(t)), nil
 	case "row":
 		need(1)
 		v, t := x.eval(env, c, e.Args[0])
@@ -771,7 +795,40 @@ func (x *Exec) evalCall(env *Env, c *Clause, e *Expr) (SymVal, types.Type) {
 		return BoolLit(len(env.st.held) == 0), boolT
 	case "fresh":
 		need(1)
-		return BoolLit(env.st.fresh[argT(0).S]), boolT
+		t := argT(0)
+		if env.st.fresh[t.S] {
+			return True, boolT
+		}
+		var alts []Term
+		for _, r := range sortedKeys(env.st.fresh) {
+			alts = append(alts, Eq(t, mk(SInt, r)))
+		}
+		return Or(alts...), boolT
+	case "addr":
+		// addr(v): address of an address-taken local variable
+		need(1)
+		if e.Args[0].Kind != "ident" {
+			x.specFail(c, "addr needs a variable name")
+		}
+		a := x.findLocal(e.Args[0].Op)
+		fr := x.rootFrame(env.st)
+		if a == nil || !a.Heap || fr == nil {
+			x.specFail(c, "addr: %s is not an address-taken local", e.Args[0].Op)
+		}
+		if pv, ok := fr.vals[a].(Term); ok {
+			return pv, a.Type()
+		}
+		return Zero, a.Type()
+	case "heldobj":
+		need(1)
+		t := argT(0)
+		var alts []Term
+		for _, h := range env.st.held {
+			if h.Key == "obj" {
+				alts = append(alts, Eq(h.Ref, t))
+			}
+		}
+		return Or(alts...), boolT
 	case "allocated":
 		need(1)
 		t := argT(0)
@@ -811,6 +868,10 @@ func (x *Exec) evalCall(env *Env, c *Clause, e *Expr) (SymVal, types.Type) {
 	case "strlen":
 		need(1)
 		return app(SInt, "strlen", argT(0)), intT
+	case "zero":
+		need(1)
+		t := x.resolveType(env, c, e.Args[0].Lit)
+		return x.D.ZeroOf(t), t
 	case "funcval":
 		// funcval("Name"): handle of a static function
 		need(1)
@@ -840,6 +901,13 @@ func (x *Exec) evalCall(env *Env, c *Clause, e *Expr) (SymVal, types.Type) {
 			args = append(args, x.asTerm(env, c, v, t, ""))
 		}
 		return x.specInline(env, c, f, args)
+	}
+	if sym, ok := env.funs[e.Op]; ok {
+		var as []Term
+		for i := range e.Args {
+			as = append(as, argT(i))
+		}
+		return app(env.funSorts[e.Op], sym, as...), nil
 	}
 	// user-declared spec functions
 	for _, sf := range x.CS.SpecFuns {
